@@ -23,10 +23,15 @@ fn spi_trace(rig: &Rig) -> Vec<(u16, Vec<u8>)> {
 }
 
 fn run_hist(spec: &'static Spec, ops: &[Op], scribble: bool) -> Result<Rig, String> {
+    run_hist_mode(spec, ops, scribble, false)
+}
+
+fn run_hist_mode(spec: &'static Spec, ops: &[Op], scribble: bool, keep_alive: bool) -> Result<Rig, String> {
     let mut rig = match Rig::new(spec, |_| {}, None, scribble) {
         Ok(r) => r,
         Err((o, _)) => return Err(o.short()),
     };
+    rig.bufs.keep_alive = keep_alive;
     for o in ops {
         let out = rig.apply(o);
         if !out.is_ok() {
@@ -37,40 +42,44 @@ fn run_hist(spec: &'static Spec, ops: &[Op], scribble: bool) -> Result<Rig, Stri
 }
 
 /// Some(first differing transfer description) when the two traces differ
-fn eval(spec: &'static Spec, syms: &[Sym], h: &[usize], rep: Option<&mut Report>) -> Result<Option<(String, String)>, String> {
+fn eval(spec: &'static Spec, syms: &[Sym], h: &[usize], mut rep: Option<&mut Report>) -> Result<Option<(String, String)>, String> {
     let ops = flatten(syms, h);
     let a = run_hist(spec, &ops, false)?;
-    let b = run_hist(spec, &ops, true)?;
     let ta = spi_trace(&a);
-    let tb = spi_trace(&b);
-    if let Some(rep) = rep {
-        rep.count("transfers_compared", ta.len() as u64);
-        rep.count("buffer_bytes_lent", a.bufs.bytes_lent);
-        rep.count("buffers_scribbled_and_freed", b.bufs.junk.len() as u64);
-    }
-    if ta.len() != tb.len() {
-        return Ok(Some(("length".into(), format!("run A made {} transfers, run B {}", ta.len(), tb.len()))));
-    }
-    for (i, (x, y)) in ta.iter().zip(tb.iter()).enumerate() {
-        if x != y {
-            // which op does transfer i belong to?
-            let bb = b.board.borrow();
-            let mut n = 0usize;
-            let mut opi = 0u32;
-            for e in &bb.log {
-                match e {
-                    Ev::OpBegin { idx } => opi = *idx,
-                    Ev::Spi { .. } => {
-                        if n == i {
-                            break;
+    // run B1: buffers complemented but kept allocated (deterministic); run B2: complemented,
+    // freed and a junk buffer of the same size allocated (what the sanitizers watch)
+    for keep_alive in [true, false] {
+        let b = run_hist_mode(spec, &ops, true, keep_alive)?;
+        let tb = spi_trace(&b);
+        if let Some(rep) = rep.as_deref_mut() {
+            rep.count("transfers_compared", ta.len() as u64);
+            rep.count("buffer_bytes_lent", a.bufs.bytes_lent);
+            rep.count("buffers_scribbled", b.bufs.junk.len() as u64);
+        }
+        if ta.len() != tb.len() {
+            return Ok(Some(("length".into(), format!("run A made {} transfers, run B {}", ta.len(), tb.len()))));
+        }
+        for (i, (x, y)) in ta.iter().zip(tb.iter()).enumerate() {
+            if x != y {
+                // which op does transfer i belong to?
+                let bb = b.board.borrow();
+                let mut n = 0usize;
+                let mut opi = 0u32;
+                for e in &bb.log {
+                    match e {
+                        Ev::OpBegin { idx } => opi = *idx,
+                        Ev::Spi { .. } => {
+                            if n == i {
+                                break;
+                            }
+                            n += 1;
                         }
-                        n += 1;
+                        _ => {}
                     }
-                    _ => {}
                 }
+                let entry = if opi == 0 { "new".to_string() } else { ops[(opi - 1) as usize].k.name().to_string() };
+                return Ok(Some((entry, format!("transfer {} differs: run A sent {:02X?}, run B (earlier buffers {}) sent {:02X?}", i, &x.1[..x.1.len().min(8)], if keep_alive { "complemented" } else { "complemented, freed, reallocated" }, &y.1[..y.1.len().min(8)]))));
             }
-            let entry = if opi == 0 { "new".to_string() } else { ops[(opi - 1) as usize].k.name().to_string() };
-            return Ok(Some((entry, format!("transfer {} differs: run A sent {:02X?}, run B (earlier buffers scribbled and freed) sent {:02X?}", i, &x.1[..x.1.len().min(8)], &y.1[..y.1.len().min(8)]))));
         }
     }
     Ok(None)
@@ -177,19 +186,28 @@ pub fn run(ctx: &Ctx) -> Report {
             }
             Ok(Some((entry, detail))) => {
                 rep.nontrivial(hash_str(&format!("{}|{}", spec.name, ops_short(&ops))));
-                let sig0 = entry.clone();
-                let min = minimize_history(&c.h, &sig0, &|t: &[usize]| match eval(spec, &syms, t, None) {
-                    Ok(Some((e, _))) => Some(e),
-                    _ => None,
-                });
-                let min_ops = flatten(&syms, &min);
+                // Native detection depends on the allocator handing the freed block out again, so
+                // history minimisation is not reproducible here; name the semantic cause instead:
+                // the last buffer-lending operation before the call whose traffic differs.
+                let lender = {
+                    let mut l = "none".to_string();
+                    for o in &ops {
+                        if o.k.name() == entry && l != "none" {
+                            break;
+                        }
+                        if o.img != Img::None {
+                            l = o.k.name().to_string();
+                        }
+                    }
+                    l
+                };
                 rep.fail(Failure {
                     panel: spec.name.into(),
                     entry,
                     class: "wire-depends-on-dead-buffer".into(),
-                    tags: vec![format!("hist:{}", sym_kinds(&syms, &min))],
-                    detail: format!("{} | minimal history: {} | seen in: {}", detail, ops_short(&min_ops), ops_short(&ops)),
-                    case: case_json(spec, &variant, &min_ops),
+                    tags: vec![format!("lender:{}", lender)],
+                    detail: format!("{} | seen in: {}", detail, ops_short(&ops)),
+                    case: case_json(spec, &variant, &ops),
                 });
             }
         }
